@@ -8,11 +8,13 @@ Cases:
     ad <0|1> <user> <pass> <tail> T st <stream> ch <n> <size>*n  SocksAdapter.handleHandshake + handleRequest
     udp T d <datagram>                                           parseUDPHeader, then build + parse again
     ubp T h <host> p <port> pl <payload>                         buildUDPHeader, then parseUDPHeader
+    relay <paced|burst|gated> T ds <n> <datagram>*n              real UDPRelay (readLoop + handlePacket goroutines) -> tunnel doubles
 Observations (same for implementation and model):
     hs:  ok <cmd> <host> <port> w <written> left <n>   |  err <stage> w <written> left <n>
     ad:  ok <target> w <written> left <n>              |  err <stage> w <written> left <n>
     udp: err <stage>  |  ok <host> <port> <payload> rb <rebuilt> (ok <host> <port> <payload> | err <stage>)
     ubp: b <built> (ok <host> <port> <payload> | err <stage>)
+    relay: fw <m> (<host> <port> <payload>)*m       every SendPacket (tunnel destination, bytes), sorted as text
 -/
 namespace Tunnox.Drv.C20
 open Tunnox.C20
@@ -228,6 +230,61 @@ def parseUbpObs : List String → Option BObs
     if ts.isEmpty then pure ⟨b, p⟩ else none
   | _ => none
 
+/-! ### relay -/
+
+structure RelayCase where
+  mode : String
+  ip : IPText
+  ds : List Bytes
+
+def parseHexN : Nat → List String → Option (List Bytes)
+  | 0, _ => some []
+  | n + 1, t :: ts => do
+    let b ← bytesOfHex t
+    let r ← parseHexN n ts
+    pure (b :: r)
+  | _, _ => none
+
+def parseRelayCase : List String → Option RelayCase
+  | mode :: ts => do
+    let (ip, ts) ← parseTables ts
+    match ts with
+    | "ds" :: n :: ts => do
+      let n ← n.toNat?
+      if ts.length != n then none else
+      let ds ← parseHexN n ts
+      pure ⟨mode, ip, ds⟩
+    | _ => none
+  | _ => none
+
+/-- The schedule the harness forces for a mode: `paced` = every goroutine runs before the next
+read; `burst` = the reader consumes the whole burst first, goroutines then run last-started first;
+`gated` = the reader consumes everything, goroutines are released in starting order. -/
+def relaySchedule (mode : String) (n : Nat) : List RStep :=
+  if mode == "paced" then (List.replicate n [RStep.read, RStep.run 0]).flatten
+  else if mode == "burst" then List.replicate n RStep.read ++ (List.range n).reverse.map RStep.run
+  else List.replicate n RStep.read ++ List.replicate n (RStep.run 0)
+
+def destStr (d : UDest) : String := s!"{hexOfBytes d.host} {d.port} {hexOfBytes d.payload}"
+
+def relayObsStr (sent : List UDest) : String :=
+  let xs := (sent.map destStr).mergeSort (fun a b => !decide (b < a))
+  xs.foldl (fun acc x => acc ++ " " ++ x) s!"fw {sent.length}"
+
+def modelRelay (c : RelayCase) : String :=
+  relayObsStr ((Relay.init c.ds).exec c.ip .copyAtRead (relaySchedule c.mode c.ds.length)).sent
+
+def parseDests : Nat → List String → Option (List UDest)
+  | 0, [] => some []
+  | n + 1, h :: p :: pl :: ts => do
+    let r ← parseDests n ts
+    pure (⟨← bytesOfHex h, ← p.toNat?, ← bytesOfHex pl⟩ :: r)
+  | _, _ => none
+
+def parseRelayObs : List String → Option (List UDest)
+  | "fw" :: m :: ts => do parseDests (← m.toNat?) ts
+  | _ => none
+
 /-! ### entry points -/
 
 def runModel (ts : List String) : String :=
@@ -247,6 +304,10 @@ def runModel (ts : List String) : String :=
   | "ubp" :: rest =>
     match parseUbpCase rest with
     | some c => let o := modelUbp c; s!"b {hexOfBytes o.built} {uOutStr o.parsed}"
+    | none => "bad-case"
+  | "relay" :: rest =>
+    match parseRelayCase rest with
+    | some c => modelRelay c
     | none => "bad-case"
   | _ => "bad-case"
 
@@ -273,6 +334,11 @@ def runHolds (caseToks obsToks : List String) : String :=
   | "ubp" :: rest =>
     match parseUbpCase rest, parseUbpObs obsToks with
     | some c, some o => boolStr (holdsBuild c.ip c.host c.port c.payload o)
+    | some _, none => "false"
+    | none, _ => "bad-case"
+  | "relay" :: rest =>
+    match parseRelayCase rest, parseRelayObs obsToks with
+    | some c, some sent => boolStr (holdsRelay c.ip c.ds sent)
     | some _, none => "false"
     | none, _ => "bad-case"
   | _ => "bad-case"
